@@ -681,4 +681,202 @@ mutual
       | none => simp only [hf] at h; simp [hn.1.1] at h
 end
 
+/- ---------- coercion adds no `__typename` key ---------- -/
+
+theorem noTypenameFields_lookup : ∀ (kvs : GoFields) (k : Bytes) (x : GoVal),
+    noTypenameFieldsB kvs = true → kvs.lookup k = some x → noTypenameB x = true ∧ k ≠ str "__typename"
+  | .nil, _, _, _, h => by simp [GoFields.lookup] at h
+  | .cons a w r, k, x, hs, h => by
+    simp only [noTypenameFieldsB, Bool.and_eq_true, decide_eq_true_eq] at hs
+    simp only [GoFields.lookup] at h
+    split at h
+    · rename_i e; cases h; exact ⟨hs.1.2, by rw [← e]; exact hs.1.1⟩
+    · exact noTypenameFields_lookup r k x hs.2 h
+
+theorem noTypenameFields_set : ∀ (kvs : GoFields) (k : Bytes) (x : GoVal),
+    noTypenameFieldsB kvs = true → noTypenameB x = true → k ≠ str "__typename" → noTypenameFieldsB (kvs.set k x) = true
+  | .nil, k, x, _, hx, hk => by simp [GoFields.set, noTypenameFieldsB, hx, hk]
+  | .cons a w r, k, x, hs, hx, hk => by
+    simp only [noTypenameFieldsB, Bool.and_eq_true, decide_eq_true_eq] at hs
+    simp only [GoFields.set]
+    split
+    · simp [noTypenameFieldsB, hx, hs.2, hs.1.1]
+    · simp [noTypenameFieldsB, hs.1.1, hs.1.2, noTypenameFields_set r k x hs.2 hx hk]
+
+theorem listLoop_noTypename (f : Path → GoVal → Res GoVal) (path : Path) (b1 b2 : Bool)
+    (hf : ∀ p x r, f p x = .ok r → noTypenameB x = true → noTypenameB r = true) :
+    ∀ (xs xs' : GoVals) (i : Nat), listLoop f path b1 b2 i xs = .ok xs' → noTypenameItemsB xs = true → noTypenameItemsB xs' = true
+  | .nil, xs', i, h, _ => by simp only [listLoop] at h; cases h; rfl
+  | .cons x rest, xs', i, h, hn => by
+    simp only [noTypenameItemsB, Bool.and_eq_true] at hn
+    simp only [listLoop] at h
+    split at h
+    · simp at h
+    · cases hfx : f (path ++ [.idx i]) x with
+      | ok ret =>
+        simp only [hfx] at h
+        cases hl : listLoop f path b1 b2 (i + 1) rest with
+        | ok rest' =>
+          simp only [hl] at h; cases h
+          simp [noTypenameItemsB, hf _ _ _ hfx hn.1, listLoop_noTypename f path b1 b2 hf rest rest' (i + 1) hl hn.2]
+        | err m p a => simp [hl] at h
+        | panic m => simp [hl] at h
+        | outOfFuel => simp [hl] at h
+      | err m p a => simp [hfx] at h
+      | panic m => simp [hfx] at h
+      | outOfFuel => simp [hfx] at h
+
+theorem fieldLoop_noTypename (f : Path → GType → GoVal → Res GoVal) (path : Path)
+    (hf : ∀ p t x r, f p t x = .ok r → noTypenameB x = true → noTypenameB r = true) :
+    ∀ (fields : List FieldDef) (elem : GoType) (kvs : GoFields) (elem' : GoType) (kvs' : GoFields),
+      fieldLoop f path fields elem kvs = .ok (elem', kvs') → noTypenameFieldsB kvs = true → noTypenameFieldsB kvs' = true
+  | [], elem, kvs, elem', kvs', h, hn => by simp only [fieldLoop] at h; cases h; exact hn
+  | fd :: rest, elem, kvs, elem', kvs', h, hn => by
+    have ih := fun e2 k2 => fieldLoop_noTypename f path hf rest e2 k2 elem' kvs'
+    simp only [fieldLoop] at h
+    cases hl : kvs.lookup fd.name with
+    | none =>
+      simp only [hl] at h
+      by_cases hnn : fd.type.nonNull = true
+      · simp only [hnn, if_true] at h
+        cases hdf : fd.default with
+        | none => simp [hdf] at h
+        | some dv =>
+          simp only [hdf] at h
+          split at h
+          · exact ih _ _ h hn
+          · simp at h
+      · simp only [hnn, Bool.false_eq_true, if_false] at h
+        exact ih _ _ h hn
+    | some x =>
+      simp only [hl] at h
+      obtain ⟨hx, hk⟩ := noTypenameFields_lookup kvs fd.name x hn hl
+      split at h
+      · split at h
+        · simp at h
+        · exact ih _ _ h hn
+      · cases hr : f (path ++ [.name fd.name]) fd.type x with
+        | ok cval =>
+          simp only [hr] at h
+          cases hty : cval.type? with
+          | none => simp [hty] at h
+          | some t =>
+            simp only [hty] at h
+            exact ih _ _ h (noTypenameFields_set kvs fd.name cval hn (hf _ _ _ _ hr hx) hk)
+        | err m p a => simp [hr] at h
+        | panic m => simp [hr] at h
+        | outOfFuel => simp [hr] at h
+
+/-- the returned value has the key `__typename` in some object only if the argument had it -/
+theorem validateVarType_noTypename (s : Schema) :
+    ∀ (fuel : Nat) (path : Path) (typ : GType) (val ret : GoVal),
+      validateVarType s fuel path typ val = .ok ret → noTypenameB val = true → noTypenameB ret = true
+  | 0, _, _, _, _, h, _ => by simp [validateVarType] at h
+  | fuel + 1, path, typ, val, ret, h, hn => by
+    have ih := validateVarType_noTypename s fuel
+    cases typ with
+    | list e nn p =>
+      by_cases hvn : val = .nil
+      · subst hvn; rw [vvt_list_nil] at h; cases h; rfl
+      by_cases hsl : ∃ t xs, val = GoVal.slice t xs
+      · obtain ⟨t, xs, rfl⟩ := hsl
+        simp only [validateVarType, GoVal.isNil, Bool.false_eq_true, if_false] at h
+        cases hr : listLoop (fun p x => validateVarType s fuel p e x) path (decide (t = .iface)) e.nonNull 0 xs with
+        | ok xs' =>
+          simp only [hr] at h; cases h
+          simpa [noTypenameB] using listLoop_noTypename _ path _ _ (fun p x r h1 h2 => ih p e x r h1 h2) xs xs' 0 hr (by simpa [noTypenameB] using hn)
+        | err m p a => simp [hr] at h
+        | panic m => simp [hr] at h
+        | outOfFuel => simp [hr] at h
+      · have hns : ∀ t xs, val ≠ GoVal.slice t xs := fun t xs h => hsl ⟨t, xs, h⟩
+        rw [vvt_list_nonslice s fuel path e nn p val hvn hns] at h
+        cases hty : val.type? with
+        | none => simp [hty] at h
+        | some t =>
+          simp only [hty] at h
+          cases hr : validateVarType s fuel (path ++ [.idx 0]) e val with
+          | ok r =>
+            simp only [hr] at h; cases h
+            simp [noTypenameB, noTypenameItemsB, ih _ _ _ _ hr hn]
+          | err m p a => simp [hr] at h
+          | panic m => simp [hr] at h
+          | outOfFuel => simp [hr] at h
+    | named n nn p =>
+      simp only [validateVarType] at h
+      cases hd : s.type? n with
+      | none => simp [hd] at h
+      | some d =>
+        simp only [hd] at h
+        split at h
+        · cases h; exact hn
+        · cases hk : d.kind <;> simp only [hk] at h
+          case scalar =>
+            cases hty : val.type? with
+            | none => simp [hty] at h
+            | some t =>
+              simp only [hty] at h
+              split at h <;> first | (cases h; exact hn) | simp at h
+          case enum =>
+            cases hty : val.type? with
+            | none => simp [hty] at h
+            | some t =>
+              simp only [hty] at h
+              split at h
+              · simp at h
+              · split at h <;> first | (cases h; exact hn) | simp at h
+          case inputObject =>
+            cases val with
+            | map elem kvs =>
+              simp only [] at h
+              cases hu : unknownKeys d.fields kvs with
+              | cons k others => simp [hu] at h
+              | nil =>
+                simp only [hu] at h
+                cases hr : fieldLoop (fun p t x => validateVarType s fuel p t x) path d.fields elem kvs with
+                | ok pr =>
+                  obtain ⟨e', kvs'⟩ := pr
+                  simp only [hr] at h; cases h
+                  simpa [noTypenameB] using fieldLoop_noTypename _ path (fun p t x r h1 h2 => ih p t x r h1 h2) d.fields elem kvs e' kvs' hr (by simpa [noTypenameB] using hn)
+                | err m p a => simp [hr] at h
+                | panic m => simp [hr] at h
+                | outOfFuel => simp [hr] at h
+            | _ => simp at h
+          all_goals simp at h
+
+theorem jsonNumberPre_noTypename {typ : GType} {val rv : GoVal} (hn : noTypenameB val = true)
+    (h : jsonNumberPre typ val = .ok rv) : noTypenameB rv = true := by
+  unfold jsonNumberPre at h
+  cases val with
+  | jsonNumber t =>
+    simp only [] at h
+    split at h
+    · split at h <;> first | (cases h; rfl) | simp at h
+    · split at h
+      · split at h <;> first | (cases h; rfl) | simp at h
+      · cases h; rfl
+  | _ => simp only [] at h; cases h; exact hn
+
+theorem coerceSupplied_noTypename {s : Schema} {op : OperationDef} {v : VarDef} {acc c : GoFields} {x : GoVal}
+    (hn : noTypenameB x = true) (h : coerceSupplied s op v acc x = .ok c) :
+    ∃ y, c = acc.set v.var y ∧ noTypenameB y = true := by
+  unfold coerceSupplied at h
+  split at h
+  · split at h
+    · simp at h
+    · cases h; exact ⟨.nil, rfl, rfl⟩
+  · cases hj : jsonNumberPre v.type x with
+    | error m => simp [hj] at h
+    | ok rv =>
+      simp only [hj] at h
+      cases hr : validateVarType s (fuelFor s op rv) (varPath v) v.type rv with
+      | ok rval =>
+        simp only [hr] at h
+        split at h
+        · simp at h
+        · cases h
+          exact ⟨rval, rfl, validateVarType_noTypename s _ _ _ _ _ hr (jsonNumberPre_noTypename hn hj)⟩
+      | err m p a => simp [hr] at h
+      | panic m => simp [hr] at h
+      | outOfFuel => simp [hr] at h
+
 end Gql
